@@ -24,6 +24,9 @@ rows = []
 for sid in sorted(os.path.basename(d) for d in glob.glob(V + '/seeded/C*')):
     m = json.load(open(os.path.join(V, 'seeded', sid, 'meta.json')))
     cr = m.get('check_result')
+    if m.get('disputed'):
+        rows.append('| %s | %s | not a violation of the property as documented (see meta.json: disputed) | |' % (sid, m['property']))
+        continue
     if m.get('neutralised_by'):
         rows.append('| %s | %s | neutralised by fix %s (see meta.json) | |' % (sid, m['property'], m['neutralised_by']))
         continue
